@@ -143,6 +143,18 @@ func Analyze(repoDir, modDir string) (*Result, error) {
 				if !ok || !tv.IsType() || len(x.Args) != 1 {
 					return true
 				}
+				// unsafe.Pointer(<integer>): valid only as pointer arithmetic written in ONE expression, unsafe.Pointer(uintptr(p) + off).
+				// A pointer that went through an integer variable (the "noescape" trick) is invisible to escape analysis and to the
+				// collector: a view made from it may refer to a frame that is gone, i.e. to memory that is not part of the value.
+				if isUnsafePointer(tv.Type) {
+					if at, ok := info.Types[x.Args[0]]; ok {
+						if b, ok := at.Type.Underlying().(*types.Basic); ok && b.Kind() == types.Uintptr && !pointerArithmetic(info, x.Args[0]) {
+							res.Sites = append(res.Sites, Site{Pos: fset.Position(x.Pos()).String(), Func: fn, From: "uintptr", To: "unsafe.Pointer",
+								Problems: []Problem{{"pointer-from-integer", fn, "unsafe.Pointer(<uintptr value>) in " + fn + ": the pointer went through an integer, so neither escape analysis nor the collector knows what it refers to; a view made from it can outlive the memory it points at"}}})
+						}
+					}
+					return true
+				}
 				inner, ok := x.Args[0].(*ast.CallExpr)
 				if !ok || len(inner.Args) != 1 {
 					// a conversion from an unsafe.Pointer variable: listed, not judged
@@ -208,6 +220,39 @@ func Analyze(repoDir, modDir string) (*Result, error) {
 		})
 	}
 	return res, nil
+}
+
+// pointerArithmetic reports whether e has the one valid form of an integer that becomes a pointer again:
+// uintptr(<unsafe.Pointer>) (+|-) <offset>, possibly parenthesised, or a call of reflect's Pointer / UnsafeAddr.
+func pointerArithmetic(info *types.Info, e ast.Expr) bool {
+	for {
+		p, ok := e.(*ast.ParenExpr)
+		if !ok {
+			break
+		}
+		e = p.X
+	}
+	switch x := e.(type) {
+	case *ast.BinaryExpr:
+		if x.Op != token.ADD && x.Op != token.SUB && x.Op != token.AND_NOT {
+			return false
+		}
+		return pointerArithmetic(info, x.X)
+	case *ast.CallExpr:
+		if tv, ok := info.Types[x.Fun]; ok && tv.IsType() && len(x.Args) == 1 {
+			// uintptr(p) with p an unsafe.Pointer
+			if at, ok := info.Types[x.Args[0]]; ok {
+				if b, ok := at.Type.Underlying().(*types.Basic); ok && b.Kind() == types.UnsafePointer {
+					return true
+				}
+			}
+			return false
+		}
+		if sel, ok := x.Fun.(*ast.SelectorExpr); ok && (sel.Sel.Name == "Pointer" || sel.Sel.Name == "UnsafeAddr") {
+			return true
+		}
+	}
+	return false
 }
 
 func term(tag string) string {
